@@ -139,7 +139,7 @@ pub fn top_clock(facts: &[(usize, Fact)]) -> Clk {
 pub fn map_spec(inp: &SpecIn, depth: usize, leaf_is_reg: bool) -> Obs {
     let (reads, w, nested) = level(inp, &[], depth, leaf_is_reg);
     // only add-carrying updates advance a top-level Orswot's clock; every Up advances a Map's clock
-    let mut add = Clk::new();
+    let mut add = inp.base.clone();
     for (_, f) in inp.facts {
         match f {
             Fact::Up { dot, leaf, .. } => {
